@@ -96,82 +96,100 @@ theorem exists_cons4 (o : Buf) (h : 4 ≤ o.length) : ∃ a b c d t, o = a :: b 
   match o, h with
   | a :: b :: c :: d :: t, _ => exact ⟨a, b, c, d, t, rfl⟩
 
-theorem mapR_ne_panic {α β : Type} (f : α → R β) (l : List α) (h : ∀ x ∈ l, f x ≠ .panic) :
-    mapR f l ≠ .panic := by
+/-- a `mapR` over items on which `f` returns normally returns normally -/
+theorem mapR_ok {α β : Type} (f : α → R β) (l : List α) (h : ∀ x ∈ l, ∃ y, f x = .ok y) :
+    ∃ ys, mapR f l = .ok ys ∧ ys.length = l.length := by
   induction l with
-  | nil => simp [mapR]
+  | nil => exact ⟨[], rfl, rfl⟩
   | cons x xs ih =>
-    have hx := h x (by simp)
-    have hxs := ih (fun y hy => h y (by simp [hy]))
+    obtain ⟨y, hy⟩ := h x (by simp)
+    obtain ⟨ys, hys, hl⟩ := ih (fun z hz => h z (by simp [hz]))
+    refine ⟨y :: ys, ?_, by simp [hl]⟩
     unfold mapR
-    cases hfx : f x with
-    | ok y =>
-      cases hm : mapR f xs with
-      | ok ys => simp
-      | err e => simp
-      | panic => exact absurd hm hxs
-    | err e => simp
-    | panic => exact absurd hfx hx
+    rw [hy, hys]
+    rfl
 
 theorem memberOf_cons4 (a b c d : UInt8) (t : Buf) :
     memberOf (a :: b :: c :: d :: t) =
       .ok ⟨(a.toNat * 65536 + b.toNat * 256 + c.toNat) / 16, c.toNat / 2 % 8, c.toNat % 2, d.toNat⟩ := by
   simp [memberOf, getLabel, getExp, getBos, getTtl, rd]
 
-theorem memberOf_ne_panic (m : Buf) (h : 4 ≤ m.length) : memberOf m ≠ .panic := by
+theorem memberOf_ok (m : Buf) (h : 4 ≤ m.length) : ∃ x, memberOf m = .ok x := by
   obtain ⟨a, b, c, d, t, rfl⟩ := exists_cons4 m h
-  simp [memberOf_cons4]
+  exact ⟨_, memberOf_cons4 a b c d t⟩
 
-theorem mplsOf_ne_panic (s : Buf) : mplsOf s ≠ .panic := by
+/-- `MplsLabelStack::from` returns normally on any octets, with at most `len / 4` members -/
+theorem mplsOf_ok (s : Buf) : ∃ ms, mplsOf s = .ok ms ∧ 4 * ms.length ≤ s.length := by
   unfold mplsOf
-  apply mapR_ne_panic
-  intro m hm
-  have := (List.mem_filter.mp hm).2
-  exact memberOf_ne_panic m (by simpa using this)
+  obtain ⟨ys, hys, hl⟩ := mapR_ok memberOf ((members s).filter fun m => decide (4 ≤ m.length))
+    (fun m hm => memberOf_ok m (by simpa using (List.mem_filter.mp hm).2))
+  refine ⟨ys, hys, ?_⟩
+  have h1 := List.length_filter_le (fun m : Buf => decide (4 ≤ m.length)) (members s)
+  have h2 := members_length s
+  omega
 
 theorem be16At_cons (a b : UInt8) (t : Buf) : be16At (a :: b :: t) = a.toNat * 256 + b.toNat := by
   simp [be16At]
 
+/-- `ExtensionObjectPacket::payload` on a view of at least 4 octets: the clamped slice -/
 theorem objPayload_cons4 (a b c d : UInt8) (t : Buf) :
     objPayload (a :: b :: c :: d :: t) =
-      if 4 ≤ a.toNat * 256 + b.toNat ∧ a.toNat * 256 + b.toNat ≤ t.length + 4 then
-        .ok (((a :: b :: c :: d :: t).take (a.toNat * 256 + b.toNat)).drop 4)
-      else .panic := by
+      .ok (((a :: b :: c :: d :: t).take
+        (max 4 (min (a.toNat * 256 + b.toNat) (t.length + 4)))).drop 4) := by
   simp [objPayload, objLength, rd]
 
-theorem objectOf_ne_panic (o : Buf) (h1 : 4 ≤ o.length) (h2 : 4 ≤ be16At o)
-    (h3 : be16At o ≤ o.length) : objectOf o ≠ .panic := by
+theorem objPayload_ok (o : Buf) (h : 4 ≤ o.length) :
+    objPayload o = .ok ((o.take (max 4 (min (be16At o) o.length))).drop 4) := by
+  obtain ⟨a, b, c, d, t, rfl⟩ := exists_cons4 o h
+  rw [objPayload_cons4, be16At_cons]
+  simp
+
+/-- the closure of `Extensions::try_from` returns normally on every view of at least 4 octets -/
+theorem objectOf_ok (o : Buf) (h1 : 4 ≤ o.length) : ∃ x, objectOf o = .ok x := by
+  have hp := objPayload_ok o h1
   obtain ⟨a, b, c, d, t, rfl⟩ := exists_cons4 o h1
-  rw [be16At_cons] at h2 h3
-  simp only [List.length_cons] at h3
-  have hp := objPayload_cons4 a b c d t
-  rw [if_pos ⟨h2, by omega⟩] at hp
   unfold objectOf
-  simp only [rd, List.getElem?_cons_succ, List.getElem?_cons_zero, R.bind_ok, hp]
+  simp only [rd, List.getElem?_cons_succ, List.getElem?_cons_zero, R.bind_ok, hp, R.pure_eq]
   split
   · split
-    · simp
-    · have := mplsOf_ne_panic (List.drop 4 (List.take (a.toNat * 256 + b.toNat) (a :: b :: c :: d :: t)))
-      cases hm : mplsOf (List.drop 4 (List.take (a.toNat * 256 + b.toNat) (a :: b :: c :: d :: t))) with
-      | ok ms => simp
-      | err e => simp
-      | panic => exact absurd hm this
-  · simp
+    · exact ⟨_, rfl⟩
+    · obtain ⟨ms, hms, _⟩ := mplsOf_ok (List.drop 4 (List.take
+        (max 4 (min (be16At (a :: b :: c :: d :: t)) (a :: b :: c :: d :: t).length))
+        (a :: b :: c :: d :: t)))
+      rw [hms]
+      exact ⟨_, rfl⟩
+  · exact ⟨_, rfl⟩
+
+/-- `Extensions::try_from` returns `Ok` on every buffer of at least 4 octets, with at most
+`(len - 4) / 4` extensions -/
+theorem extensionsTryFrom_ok (ext : Buf) (h : 4 ≤ ext.length) :
+    ∃ xs, extensionsTryFrom ext = .ok xs ∧ 4 * xs.length ≤ ext.length - 4 := by
+  unfold extensionsTryFrom
+  rw [if_neg (by omega)]
+  obtain ⟨a, b, c, d, t, rfl⟩ := exists_cons4 ext h
+  simp only [headerVersion, rd, List.take, List.getElem?_cons_zero, R.bind_ok, R.pure_eq]
+  split
+  · exact ⟨[], rfl, by simp⟩
+  · obtain ⟨ys, hys, hl⟩ := mapR_ok objectOf
+      ((objects (a :: b :: c :: d :: t)).filter fun o => decide (4 ≤ o.length))
+      (fun o ho => objectOf_ok o (by simpa using (List.mem_filter.mp ho).2))
+    refine ⟨ys, hys, ?_⟩
+    have h1 := List.length_filter_le (fun o : Buf => decide (4 ≤ o.length))
+      (objects (a :: b :: c :: d :: t))
+    have h2 : 4 * (objects (a :: b :: c :: d :: t)).length ≤ (a :: b :: c :: d :: t).length - 4 := by
+      have := objectsFrom_length ((a :: b :: c :: d :: t).drop 4)
+      simpa [objects] using this
+    omega
+
+theorem extensionsTryFrom_short (ext : Buf) (h : ext.length < 4) :
+    extensionsTryFrom ext = .err .pktShort := by
+  simp [extensionsTryFrom, h]
 
 theorem extensionsTryFrom_ne_panic (ext : Buf) : extensionsTryFrom ext ≠ .panic := by
-  unfold extensionsTryFrom
-  split
-  · simp
-  · rename_i h
-    obtain ⟨a, b, c, d, t, rfl⟩ := exists_cons4 ext (by omega)
-    simp only [headerVersion, rd, List.take, List.getElem?_cons_zero, R.bind_ok, R.pure_eq]
-    split
-    · simp
-    · apply mapR_ne_panic
-      intro o ho
-      have hm := (List.mem_filter.mp ho).1
-      have := objects_mem _ _ hm
-      exact objectOf_ne_panic o this.2.1 this.2.2.1 this.2.2.2
+  by_cases h : ext.length < 4
+  · rw [extensionsTryFrom_short ext h]; simp
+  · obtain ⟨xs, hxs, _⟩ := extensionsTryFrom_ok ext (by omega)
+    rw [hxs]; simp
 
 /-! ## `split_payload_extension` -/
 /-- the length attribute octet of an ICMP message -/
@@ -381,8 +399,8 @@ theorem objPayload_encode (c s : Nat) (p tail : Buf) (hp : p.length ≤ 65531) :
     objPayload (encodeObject c s p ++ tail) = .ok p := by
   have hl := encodeObject_len p hp
   simp only [encodeObject, List.cons_append, List.nil_append, objPayload_cons4, hl]
-  rw [if_pos (by simp; omega)]
-  have : 4 + p.length = p.length + 1 + 1 + 1 + 1 := by omega
+  have : max 4 (min (4 + p.length) ((p ++ tail).length + 4)) = p.length + 1 + 1 + 1 + 1 := by
+    simp only [List.length_append]; omega
   rw [this]
   simp
 
@@ -397,39 +415,51 @@ theorem objectOf_other (c s : Nat) (p tail : Buf) (hc : c < 256) (hc1 : c ≠ 1)
   rw [Nat.mod_eq_of_lt (show c < 2 ^ 8 by omega), Nat.mod_eq_of_lt (show s < 2 ^ 8 by omega),
     if_neg hc1]
 
-theorem objectOf_mpls (ms : List MplsMember) (tail : Buf) (hne : ms ≠ [])
+/-- class 1 objects are label stacks whatever their C-Type; a stack without entries (payload
+shorter than 4 octets) is reported as a stack without members -/
+theorem objectOf_class1 (s : Nat) (ms : List MplsMember) (tail : Buf)
     (hlen : ms.length ≤ 16382) (hok : ∀ m ∈ ms, memberOk m)
     (hbos : ∀ m ∈ ms.dropLast, m.bos = 0) :
-    objectOf (encodeMpls ms ++ tail) = .ok (.mpls ms) := by
+    objectOf (encodeObject 1 s (encodeStack ms) ++ tail) = .ok (.mpls ms) := by
   have hsl := encodeStack_length ms
-  have hpos : 0 < ms.length := List.length_pos_iff.mpr hne
-  have hpl := objPayload_encode 1 1 (encodeStack ms) tail (by omega)
-  unfold objectOf encodeMpls
-  unfold encodeMpls at hpl
+  have hpl := objPayload_encode 1 s (encodeStack ms) tail (by omega)
+  unfold objectOf
   rw [hpl]
   simp only [encodeObject, List.cons_append, List.nil_append, rd, List.getElem?_cons_succ,
     List.getElem?_cons_zero, R.bind_ok, UInt8.toNat_ofNat', R.pure_eq]
-  rw [if_pos (by decide), if_neg (by omega), mplsOf_encode ms hok hbos]
-  rfl
+  rw [if_pos (by decide)]
+  cases ms with
+  | nil => rfl
+  | cons m rest =>
+    rw [if_neg (by rw [hsl]; simp; omega), mplsOf_encode (m :: rest) hok hbos]
+    rfl
 
-/-- the empty label stack: `MplsLabelStackPacket::new_view` rejects the empty payload -/
-theorem objectOf_mpls_nil (tail : Buf) : objectOf (encodeMpls [] ++ tail) = .err .pktShort := by
-  have hpl := objPayload_encode 1 1 (encodeStack []) tail (by simp [encodeStack])
-  unfold objectOf encodeMpls
-  unfold encodeMpls at hpl
+/-- a class-1 object whose payload cannot hold a label stack entry is a stack without members -/
+theorem objectOf_class1_short (s : Nat) (p tail : Buf) (hp : p.length < 4) :
+    objectOf (encodeObject 1 s p ++ tail) = .ok (.mpls []) := by
+  have hpl := objPayload_encode 1 s p tail (by omega)
+  unfold objectOf
   rw [hpl]
-  simp [encodeObject, rd, encodeStack]
+  simp only [encodeObject, List.cons_append, List.nil_append, rd, List.getElem?_cons_succ,
+    List.getElem?_cons_zero, R.bind_ok, UInt8.toNat_ofNat', R.pure_eq]
+  rw [if_pos (by decide), if_pos hp]
+
+theorem objectOf_mpls (ms : List MplsMember) (tail : Buf)
+    (hlen : ms.length ≤ 16382) (hok : ∀ m ∈ ms, memberOk m)
+    (hbos : ∀ m ∈ ms.dropLast, m.bos = 0) :
+    objectOf (encodeMpls ms ++ tail) = .ok (.mpls ms) :=
+  objectOf_class1 1 ms tail hlen hok hbos
 
 theorem objectOf_encode (o : Obj) (tail : Buf) (h : o.wf) :
     objectOf (o.encode ++ tail) = .ok o.expected := by
   cases o with
-  | mpls ms => exact objectOf_mpls ms tail h.1 h.2.1 h.2.2.1 h.2.2.2
+  | mpls ms => exact objectOf_mpls ms tail h.1 h.2.1 h.2.2
   | other c s p => exact objectOf_other c s p tail h.1 h.2.1 h.2.2.1 h.2.2.2
 
 theorem Obj.payload_fits (o : Obj) (h : o.wf) :
     ∃ c s p, o.encode = encodeObject c s p ∧ p.length ≤ 65531 := by
   cases o with
-  | mpls ms => exact ⟨1, 1, encodeStack ms, rfl, by rw [encodeStack_length]; have := h.2.1; omega⟩
+  | mpls ms => exact ⟨1, 1, encodeStack ms, rfl, by rw [encodeStack_length]; have := h.1; omega⟩
   | other c s p => exact ⟨c, s, p, rfl, h.2.2.2⟩
 
 theorem encodeObject_length (c s : Nat) (p : Buf) : (encodeObject c s p).length = 4 + p.length := by
@@ -462,11 +492,11 @@ theorem extensionsTryFrom_encode (ckHi ckLo : UInt8) (objs : List Obj) (h : ∀ 
   simp [headerVersion, rd, this]
 
 
-/-! ## further facts: panic condition, parse modes, deviations -/
+/-! ## further facts: panic condition of the pre-repair scaling, parse modes -/
 
 theorem unitOf_cases (fam : Bool) : unitOf fam = if fam then 8 else 4 := rfl
 
-/-- the exact panic condition of the code as it is today -/
+/-- the exact panic condition of the pre-repair scaling (`fixed := false`) -/
 theorem splitCurrent_panic_iff (fam : Bool) (icmp : Buf) (h : 8 ≤ icmp.length) :
     splitPayloadExtensionWith false fam icmp = .panic ↔
       (lengthOctet fam icmp).toNat ≥ (if fam then 32 else 64) := by
@@ -522,61 +552,6 @@ theorem tracerExtract_built (fam te enabled : Bool) (h : IcmpHdr) (mode : Mode) 
   · split
     · simp [hx]
     · rfl
-
-/-- class 1 objects are label stacks whatever their C-Type -/
-theorem objectOf_class1 (s : Nat) (ms : List MplsMember) (tail : Buf) (hne : ms ≠ [])
-    (hlen : ms.length ≤ 16382) (hok : ∀ m ∈ ms, memberOk m)
-    (hbos : ∀ m ∈ ms.dropLast, m.bos = 0) :
-    objectOf (encodeObject 1 s (encodeStack ms) ++ tail) = .ok (.mpls ms) := by
-  have hsl := encodeStack_length ms
-  have hpos : 0 < ms.length := List.length_pos_iff.mpr hne
-  have hpl := objPayload_encode 1 s (encodeStack ms) tail (by omega)
-  unfold objectOf
-  rw [hpl]
-  simp only [encodeObject, List.cons_append, List.nil_append, rd, List.getElem?_cons_succ,
-    List.getElem?_cons_zero, R.bind_ok, UInt8.toNat_ofNat', R.pure_eq]
-  rw [if_pos (by decide), if_neg (by omega), mplsOf_encode ms hok hbos]
-  rfl
-
-/-- an empty label stack object anywhere makes the whole conversion fail, whatever else is there -/
-theorem mapR_objects_emptyStack (objs rest : List Obj) (h : ∀ o ∈ objs, o.wf) :
-    mapR objectOf ((objectsFrom (encodeObjs (objs ++ Obj.mpls [] :: rest))).filter
-      fun o => decide (4 ≤ o.length)) = .err .pktShort := by
-  induction objs with
-  | nil =>
-    have hcons : encodeObjs ([] ++ Obj.mpls [] :: rest) = encodeMpls [] ++ encodeObjs rest := by
-      simp [encodeObjs, Obj.encode]
-    have hoo := objectOf_mpls_nil (encodeObjs rest)
-    rw [hcons]
-    unfold encodeMpls at hoo ⊢
-    rw [objectsFrom_encode 1 1 _ _ (by simp [encodeStack])]
-    have h4 : decide (4 ≤ (encodeObject 1 1 (encodeStack []) ++ encodeObjs rest).length) = true := by
-      simp [encodeObject_length]; omega
-    rw [List.filter_cons, if_pos h4]
-    simp [mapR, hoo]
-  | cons o os ih =>
-    have ho := h o (by simp)
-    have ih' := ih (fun x hx => h x (by simp [hx]))
-    have hcons : encodeObjs (o :: os ++ Obj.mpls [] :: rest) =
-        o.encode ++ encodeObjs (os ++ Obj.mpls [] :: rest) := by simp [encodeObjs]
-    obtain ⟨c, s, p, he, hp⟩ := Obj.payload_fits o ho
-    have hoo := objectOf_encode o (encodeObjs (os ++ Obj.mpls [] :: rest)) ho
-    rw [hcons, he, objectsFrom_encode c s p _ hp]
-    rw [he] at hoo
-    have h4 : decide (4 ≤ (encodeObject c s p ++ encodeObjs (os ++ Obj.mpls [] :: rest)).length)
-        = true := by
-      simp [encodeObject_length]; omega
-    rw [List.filter_cons, if_pos h4]
-    simp [mapR, hoo, ih']
-
-theorem extensionsTryFrom_emptyStack (ckHi ckLo : UInt8) (objs rest : List Obj)
-    (h : ∀ o ∈ objs, o.wf) :
-    extensionsTryFrom (encodeExt ckHi ckLo (objs ++ Obj.mpls [] :: rest)) = .err .pktShort := by
-  have := mapR_objects_emptyStack objs rest h
-  unfold extensionsTryFrom encodeExt extHeader objects
-  simp only [List.cons_append, List.nil_append, List.length_cons, List.drop_succ_cons, List.drop_zero]
-  rw [if_neg (by omega)]
-  simp [headerVersion, rd, this]
 
 /-- a header version other than 2: nothing is reported -/
 theorem extensionsTryFrom_version (ext : Buf) (h : 4 ≤ ext.length)
